@@ -452,6 +452,70 @@ pub fn huge_case(two_point: bool, f: Flavour, l: usize) -> (u64, u64, Vec<(Strin
     }
     (st.leaves, st.choice_points, viols)
 }
+/// Two-point crossover of vectors of thousands of genes with the cut points steered: from three start positions,
+/// *every* segment length.  (The cut points are two range draws over 0..=len; the smallest word that a
+/// multiply-shift range draw maps to v is ceil(v * 2^32 / (len + 1)) - if the subject draws differently the
+/// cut points are merely others; the oracle is the per-child one.)
+pub fn cut_sweep(f: Flavour, l: usize) -> (u64, Vec<(String, String)>) {
+    struct Words(Vec<u32>, usize);
+    impl rand::RngCore for Words {
+        fn next_u32(&mut self) -> u32 {
+            let w = self.0.get(self.1).copied().unwrap_or(0x8000_0001);
+            self.1 += 1;
+            w
+        }
+        fn next_u64(&mut self) -> u64 {
+            (self.next_u32() as u64) << 32 | 0x8000_0001
+        }
+        fn fill_bytes(&mut self, dst: &mut [u8]) {
+            dst.fill(0x55);
+        }
+    }
+    let word = |v: usize| -> u32 { ((((v as u128) << 32) + l as u128) / (l as u128 + 1)) as u32 };
+    let mut viols: Vec<(String, String)> = vec![];
+    let mut n = 0u64;
+    let mut lengths_seen = std::collections::BTreeSet::new();
+    for first in [1usize, 7, l / 3] {
+        for second in first..=l {
+            n += 1;
+            let mut rng = Words(vec![word(first), word(second)], 0);
+            let r = mcx::guarded(|| match f {
+                Flavour::WideArr => TwoPointXo.recombine([wide_tagged(1, l), wide_tagged(2, l)], &mut rng).map(|c| from_wide(&c)).map_err(|e| format!("{e:?}")),
+                _ => TwoPointXo.recombine([tagged(1, l), tagged(2, l)], &mut rng).map(|c| from_tags(&c)).map_err(|e| format!("{e:?}")),
+            });
+            let what = match r {
+                Err(p) => Some(("panic", format!("panicked: {p}"))),
+                Ok(Err(e)) => Some(("error", format!("equal-length parents: {e}"))),
+                Ok(Ok(c)) => {
+                    if c.len() != l {
+                        Some(("child-length", format!("child has length {}", c.len())))
+                    } else if let Some(i) = c.iter().position(|p| *p == 0) {
+                        Some(("foreign-gene", format!("the child's gene {i} is not the gene either parent has at that position")))
+                    } else {
+                        match single_run(&c) {
+                            None => Some(("not-contiguous", "genes from the second parent do not form one segment".to_string())),
+                            Some((a, b)) => {
+                                lengths_seen.insert(b - a);
+                                None
+                            }
+                        }
+                    }
+                }
+            };
+            if let Some((k, w)) = what {
+                if viols.len() < 3 {
+                    viols.push((format!("two_point_xo/cut-sweep/{k}"), format!("two_point_xo {f:?} length {l}, draws steered to cut points {first} and {second}: {w}")));
+                }
+            }
+        }
+    }
+    // (vacuity guard: the steering must have produced many different segment lengths)
+    if viols.is_empty() && lengths_seen.len() < l / 2 {
+        viols.push(("machinery/cut-sweep".into(), format!("cut sweep on length {l}: only {} different segment lengths were produced; the steering of the draws does not work for this subject", lengths_seen.len())));
+    }
+    (n, viols)
+}
+
 pub fn huge_lengths(quick: bool) -> Vec<usize> {
     if quick {
         vec![999, 1000, 1001, 4097, 65_537]
@@ -693,6 +757,8 @@ pub fn run(run: &mut Run) {
             }
         }
     }
+    // (the wide-gene flavours: lengths up to 6 in the thorough tier)
+    cases.retain(|(_, f, l1, l2)| !matches!(f, Flavour::WideArr | Flavour::WideTuple) || (*l1 <= 6 && *l2 <= 6));
     let results = mcx::par_map(cases.len(), |i| {
         let (tp, f, l1, l2) = cases[i];
         xo_case(tp, f, l1, l2)
@@ -719,13 +785,17 @@ pub fn run(run: &mut Run) {
     for tp in [true, false] {
         for f in FLAVOURS {
             for l in long_lengths(quick) {
+                // (the wide-gene flavours allocate per gene: the long family up to 130 genes only)
+                if matches!(f, Flavour::WideArr | Flavour::WideTuple) && l > 130 {
+                    continue;
+                }
                 long_cases.push((tp, f, l));
             }
         }
     }
     let long_results = mcx::par_map(long_cases.len(), |i| {
         let (tp, f, l) = long_cases[i];
-        long_case(tp, f, l, if quick || l > 130 { 1 } else { 2 })
+        long_case(tp, f, l, if quick || l > 130 || matches!(f, Flavour::WideArr | Flavour::WideTuple) { 1 } else { 2 })
     });
     for (i, (leaves, cps, viols)) in long_results.into_iter().enumerate() {
         run.evaluations += leaves;
@@ -756,6 +826,20 @@ pub fn run(run: &mut Run) {
             run.violation(k, w, json!({"check":"C10","scenario":"huge","two_point":tp,"flavour":format!("{f:?}"),"l":l}));
         }
     }
+    let sweep_cases: Vec<(Flavour, usize)> = if quick { vec![(Flavour::VecArr, 4097), (Flavour::VecArr, 5000), (Flavour::WideArr, 1100)] } else { vec![(Flavour::VecArr, 4097), (Flavour::VecArr, 5000), (Flavour::VecArr, 8191), (Flavour::VecArr, 8192), (Flavour::VecArr, 10_007), (Flavour::WideArr, 1100), (Flavour::WideArr, 4200)] };
+    let sweep_results = mcx::par_map(sweep_cases.len(), |i| cut_sweep(sweep_cases[i].0, sweep_cases[i].1));
+    for (i, (k, viols)) in sweep_results.into_iter().enumerate() {
+        run.evaluations += k;
+        run.transitions += k;
+        for (key, w) in viols {
+            if key.starts_with("machinery/") {
+                run.machinery(w);
+            } else {
+                run.violation(key, w, json!({"check":"C10","scenario":"cut-sweep","flavour":format!("{:?}", sweep_cases[i].0),"l":sweep_cases[i].1}));
+            }
+        }
+    }
+    run.bound("cut_sweep", json!(if quick { "vectors of 4097 and 5000 genes (wide genes: 1100): cut points steered to (first, second) for first in {1, 7, len/3} and every second" } else { "vectors of 4097, 5000, 8191, 8192, 10007 genes (wide genes: 1100, 4200): cut points steered to (first, second) for first in {1, 7, len/3} and every second" }));
     run.bound("huge_lengths", json!(huge_lengths(quick)));
     run.bound("long_lengths", json!(long_lengths(quick)));
     run.bound("long_uniform_deviation_bound", json!(if quick { "1" } else { "2 up to 130 genes, 1 beyond" }));
@@ -785,6 +869,15 @@ pub fn replay(v: &Value) -> bool {
                 println!("MISMATCH [{k}]: {}", x.what);
             }
             g.is_empty()
+        }
+        Some("cut-sweep") => {
+            let f = FLAVOURS.iter().copied().find(|f| Some(format!("{f:?}").as_str()) == v["flavour"].as_str()).unwrap_or(Flavour::VecArr);
+            let (k, viols) = cut_sweep(f, v["l"].as_u64().unwrap_or(0) as usize);
+            println!("cut sweep {f:?}: {k} recombinations");
+            for (key, w) in &viols {
+                println!("MISMATCH [{key}]: {w}");
+            }
+            viols.is_empty()
         }
         Some("huge") => {
             let tp = v["two_point"].as_bool().unwrap_or(true);
